@@ -13,7 +13,7 @@ from vf.core import MachineryError
 from vf.par import pmap
 
 META = {
-    "ready": False,
+    "ready": True,
     "category": "model_checking",
     "technique": "TLA+ reference semantics with IndexOK (Eval.tla) + operational model of the generator's subscript handling (EvalGen.tla) model-checked by TLC (RejectsIffIndexBad, GenValueAgrees) over the complete window family; every program replayed against generator.generate() (oracle mode); as-built switches give TLC counterexamples that are replayed on the code",
     "text": "For vectors of size 1..3 and matrices up to 3x3 TLC enumerates every integer subscript and every slice a:b with a, b in -1..n+2 (read and write positions, same slice on both sides so an empty selection would drop the equation), subscripts on scalars, surplus subscripts, and loop subscripts i+k whose range leaves 1..n; the spec decides reject / selected elements; generate() must raise exactly when the spec rejects and otherwise the residual must be built from exactly the spec's elements (values at 4 points with pairwise distinct element values).",
